@@ -119,6 +119,12 @@ theorem rewardFromFees_wframe (s : State) : WFrame s (rewardFromFees s) := by
     · exact hs1.trans (send_getD_wframe _ _ _ _)
     · exact hs1
 
+theorem send2_getD_wframe (s : State) (a b : Addr) (x : Int) : WFrame s ((send2 s a b x).getD s) :=
+  ⟨F2.sign_send2_getD .., F2.missedBits_send2_getD .., by rw [F2.p_send2_getD]⟩
+
+theorem rewardFromFees2_wframe (s : State) : WFrame s (rewardFromFees2 s) :=
+  ⟨F2.sign_rewardFromFees2 _, F2.missedBits_rewardFromFees2 _, by rw [F2.p_rewardFromFees2]⟩
+
 theorem mintAwards_wframe (s s' : State) (h : mintAwards s = some s') : WFrame s s' := by
   unfold mintAwards at h
   split at h
@@ -335,13 +341,13 @@ theorem beginBlock_keeps (s s' : State) (time : Int) (proposer : Addr) (votes : 
   rename_i s3 h3
   have h0 : WFrame s { s with height := s.height + 1, time := time } := ⟨rfl, rfl, rfl⟩
   have h1 : WFrame s (if ({ s with height := s.height + 1, time := time } : State).height > 1
-      then rewardFromFees { s with height := s.height + 1, time := time }
+      then rewardFromFees2 (rewardFromFees { s with height := s.height + 1, time := time })
       else { s with height := s.height + 1, time := time }) := by
     split
-    · exact h0.trans (rewardFromFees_wframe _)
+    · exact (h0.trans (rewardFromFees_wframe _)).trans (rewardFromFees2_wframe _)
     · exact h0
   generalize (if ({ s with height := s.height + 1, time := time } : State).height > 1
-      then rewardFromFees { s with height := s.height + 1, time := time }
+      then rewardFromFees2 (rewardFromFees { s with height := s.height + 1, time := time })
       else { s with height := s.height + 1, time := time }) = s1 at h1 h3
   rw [Option.bind_eq_some_iff] at h3
   obtain ⟨s2, hm, hb⟩ := h3
@@ -534,14 +540,16 @@ theorem runTx_keeps (s : State) (mode : Mode) (t : Tx) (hi : SInv s)
   split; · exact base
   split; · exact base
   simp only []
-  have ha : Keeps s ((send s (t.msg.signer s) s.feeAcc t.feeEff).getD s) :=
-    base.frame (send_getD_wframe _ _ _ _)
+  have ha : Keeps s ((send2 ((send s (t.msg.signer s) s.feeAcc t.feeEff).getD s) (t.msg.signer s) s.feeAcc t.fee2).getD
+      ((send s (t.msg.signer s) s.feeAcc t.feeEff).getD s)) :=
+    base.frame ((send_getD_wframe _ _ _ _).trans (send2_getD_wframe _ _ _ _))
   cases mode with
   | check => exact base
   | simulate => exact base
   | deliver =>
     simp only []
-    cases hh : handle ((send s (t.msg.signer s) s.feeAcc t.feeEff).getD s) t.msg with
+    cases hh : handle ((send2 ((send s (t.msg.signer s) s.feeAcc t.feeEff).getD s) (t.msg.signer s) s.feeAcc t.fee2).getD
+      ((send s (t.msg.signer s) s.feeAcc t.feeEff).getD s)) t.msg with
     | none => exact ha
     | some s' =>
       have := handle_keeps _ _ _ ha.1 hk hh
